@@ -1,4 +1,4 @@
-CONSTANTS Wide = TRUE MaxRow = 12 MaxCol = 8 Win = 3 Depth = 60 Pools = "full" EmitReplay = TRUE
+CONSTANTS Wide = TRUE MaxRow = 16 MaxCol = 10 Win = 3 Depth = 60 Pools = "full" EmitReplay = TRUE
 SPECIFICATION MCSpec
 INVARIANTS Emit InGridInv CoherentInv AllEmittedInv
 CHECK_DEADLOCK FALSE
